@@ -44,8 +44,9 @@ func (pc *pooledConnectImpl) Recycle() {
 	if pc.IsClosed() {
 		pc.pool.Put(nil)
 	} else {
-		pc.pool.Put(pc)
+		// set before Put: after Put the connection may already belong to the next client
 		pc.returnTime = time.Now()
+		pc.pool.Put(pc)
 	}
 }
 
